@@ -73,6 +73,7 @@ func (t *Taint) Run() {
 			if t.Sink != nil {
 				if what := t.Sink(u, v); what != "" {
 					t.hit(u, what, v)
+					continue // report the first sink on a flow; do not follow the value past it
 				}
 			}
 			switch x := u.(type) {
